@@ -8,6 +8,8 @@ R: harness/cmd/c39 replays every history on the real model.Node (Add without and
    reader internalised from generated documents, and projects the real tree after every step.  Histories also run
    inside a real document context: a "sync" op at any point of the history persists the document (WriteContext +
    strict re-read) and the history continues on the re-read tree; the document is persisted once more at the end.
+   "addx" inserts a name whose value is a dangling reference: removing it in a document context must fail and leave
+   the tree (projection and String()) exactly as it was; a history either drops or keeps a tree that became empty.
 V: TLC judges every distinct projection with the structural invariants of NameTree.tla (keys sorted and unique,
    limits = min/max of the keys below, kids ordered and disjoint, node shapes, agreement with the expected map,
    lookups, operation result, re-read tree = written tree)."""
@@ -31,7 +33,7 @@ META = {
 # (cfg, nb, docstride, simulate (traces per worker), depth = history length + 1, workers)
 # simulation checks (and so prints) every successor of the last state of a trace: histories ~ 30 x traces
 QUICK = [("NameTreeGen_quick.cfg", 5, 150, None, 6, 8),
-         ("NameTreeGen_multi.cfg", 5, 1, None, 3, 4),
+         ("NameTreeGen_multi.cfg", 3, 1, None, 3, 4),
          ("NameTreeGen_leaf.cfg", 3, 1, None, 4, 4),
          ("NameTreeGen_simq.cfg", 8, 4, "num=6", 25, 2)]
 THOROUGH = [("NameTreeGen_quick.cfg", 5, 40, None, 6, 8),
@@ -192,6 +194,11 @@ def run(ctx):
                   "name gets the first free 0x01-suffixed variant",
                   "key names contain no bytes <= 0x01 other than the rename suffix; the empty name is not used",
                   "only the first failing observation of a history is reported (later ones are consequences)",
+                  "a value whose graph cannot be deleted is a reference to a non-existent object (addx); removing it with a document context "
+                  "returns an error and changes nothing; histories with addx are not replayed without a document context, and a document "
+                  "currently holding such a value is not persisted",
+                  "a caller may keep an emptied tree (keep = TRUE) instead of removing it as pdfcpu's own callers do; an empty kept tree "
+                  "re-reads as no tree",
                   "persisting (\"sync\") is the identity on the abstract map; the generated documents validate in strict mode and every re-read "
                   "is validated in strict mode; values added in a session are direct destination arrays",
                   "exhaustive refers to the bounded histories of the exhaustive cfgs; the simulated histories are a seeded sample")
